@@ -14,7 +14,7 @@ from .values import Unsupported, AttachError
 
 VERIF = native.VERIF
 CONTRACT_MODULES = ["common", "c13", "c14", "c03", "c09", "c16", "c17", "c20", "c04", "c05", "c15", "c11", "c10",
-                    "c01", "c02", "c08", "c07", "c06", "c19", "c18", "cpipe", "cwrap", "cstats", "cnames", "cdemux", "cindex"]
+                    "c01", "c02", "c08", "c07", "c06", "c19", "c18", "cpipe", "cwrap", "cstats", "cnames", "cdemux", "cindex", "creport"]
 
 ASSUMPTIONS_COMMON = [
     "Python int = SMT Int; C int/ssize_t = SMT Int plus a no-overflow obligation under the stated size preconditions",
